@@ -292,6 +292,7 @@ func ReplayBcast(t *testing.T, rep *Report, tg BcastTarget, cases []V) {
 		rig := tg.NewRig(t, []string{"s1", "s2"}, nil)
 		ctxs := map[string]*PCtx{}
 		exited := map[string]bool{}
+		qlenUnknown := map[string]bool{}
 		sentTag := 0
 		status := "complete"
 		nontrivial := false
@@ -397,7 +398,7 @@ func ReplayBcast(t *testing.T, rep *Report, tg BcastTarget, cases []V) {
 						return false
 					}
 				}
-				if ql := rig.QueueLen(p); ql >= 0 && ql != hs.Get("qlen").Int() {
+				if ql := rig.QueueLen(p); ql >= 0 && !qlenUnknown[h] && ql != hs.Get("qlen").Int() {
 					bad = fmt.Sprintf("step %d %s: queue of handler %s holds %d messages, the specification has %d", i+1, a, h, ql, hs.Get("qlen").Int())
 					rep.Diverge("replay:"+tg.Name+":queue", bad, ctxOf, hs.Get("qlen").Int(), ql)
 					return false
@@ -495,12 +496,25 @@ func ReplayBcast(t *testing.T, rep *Report, tg BcastTarget, cases []V) {
 					}
 					_ = at
 				} else {
-					if ok { // the real select took the message
-						if race {
-							status = "race-other"
-							break stepLoop
+					// With a message queued too, the real select may take the message instead:
+					// the goroutine then drops it (cancelled context) and selects again, which
+					// changes nothing but the length of a queue nobody reads any more.
+					for tries := 0; ok && race && at == "errpre" && tries < 1000; tries++ {
+						qlenUnknown[h] = true
+						since = p.arrivals()
+						p.release()
+						if at, ok = p.waitArrival(since, long); !ok || at != "sel" {
+							break // handed to the handler or stuck: judged by the comparison below
 						}
-						// its context is cancelled and its queue is empty, yet it goes on
+						since = p.arrivals()
+						p.release()
+						at, ok = p.waitArrival(since, wait)
+					}
+					if ok {
+						if at == "run" || at == "errpost" {
+							// a cancelled handler is being handed a message: the comparison reports it
+							break
+						}
 						status = "desync"
 						rep.Note("%s behaviour %d step %d: processing goroutine of %s did not exit (at %q)", tg.Name, ci, i+1, h, at)
 						break stepLoop
@@ -713,7 +727,8 @@ func (r *bcastRun) cancel(h string) {
 
 func (r *bcastRun) send(s string, sim bool, tag string) uint64 {
 	c := r.nextCall()
-	r.rec.log(map[string]interface{}{"event": "SendCall", "c": c, "s": s})
+	call := map[string]interface{}{"event": "SendCall", "c": c, "s": s, "n": 0}
+	r.rec.log(call)
 	var n uint64
 	if sim {
 		n = r.rig.SimSend(s, tag)
@@ -724,6 +739,9 @@ func (r *bcastRun) send(s string, sim bool, tag string) uint64 {
 			r.t.Fatalf("%s: Send failed: %v", r.tg.Name, err)
 		}
 	}
+	r.rec.mu.Lock()
+	call["n"] = n // known only now; the trace is written when the run is over
+	r.rec.mu.Unlock()
 	r.rec.log(map[string]interface{}{"event": "SendRet", "c": c, "s": s, "n": n})
 	return n
 }
